@@ -29,7 +29,10 @@ def main():
             for k, v in sorted(L.symbols.items(), key=lambda kv: (kv[1], kv[0])):
                 print("  sym 0x%08X %s" % (v, k))
             print("objects:", L.objects)
-        L.lab.close()
+        if os.environ.get('KEEP'):
+            print('lab kept at', L.lab.dir)
+        else:
+            L.lab.close()
     finally:
         w.close()
 main()
